@@ -55,6 +55,11 @@ Fixpoint zins {A} (k : Z) (v : A) (l : list (Z * A)) : list (Z * A) :=
   | (k', v') :: r => if k' =? k then (k, v) :: r else if k <? k' then (k, v) :: (k', v') :: r else (k', v') :: zins k v r
   end.
 
+Definition rotate_contrib (a a' : Z) (C : coll) : coll :=
+  match zget a (co_contribs C) with
+  | None => C
+  | Some cc => mkColl (co_bonds C) (co_donations C) (co_any C) (co_wroles C) (co_waccts C) (zins a' cc (zdel a (co_contribs C)))
+  end.
 Definition set_coll (c : Z) (C : coll) (s : cstate) (b : bank) : cstate := mkCS (zset c C (cs_colls s)) b.
 
 (* msg server CreateCollective (ValidateBasic passed; bond threshold 0) *)
@@ -210,7 +215,8 @@ Inductive co_op : Type :=
 | CWithdraw (a c : Z)
 | CSendDonation (c to : Z) (amt : lcoins)      (* passed proposal *)
 | CRemove (c : Z)                              (* passed proposal *)
-| CSeed (c : Z) (amt : lcoins).                (* environment: donated rewards booked + held by the module *)
+| CSeed (c : Z) (amt : lcoins)                 (* environment: donated rewards booked + held by the module *)
+| CRotate (a a' : Z) (pre_ok : bool).          (* x/recovery MsgRotateRecoveryAddress (see Model/Spending.v ORotate) *)
 
 Definition co_apply (now : Z) (o : co_op) (s : cstate) : outcome cstate :=
   match o with
@@ -228,6 +234,10 @@ Definition co_apply (now : Z) (o : co_op) (s : cstate) : outcome cstate :=
                                          (co_waccts C) (co_contribs C)) s
                                (fun a => if a =? CMODULE then cadd (cs_bank s a) (cof amt) else cs_bank s a))
       end
+  | CRotate a a' pre_ok =>
+      (* every contributor record of the old address is deleted and written under the new address *)
+      if negb pre_ok || (a =? a') then Err "rotation refused" else
+      Ok (mkCS (map (fun e => (fst e, rotate_contrib a a' (snd e))) (cs_colls s)) (bank_rotate (cs_bank s) a a'))
   end.
 Definition co_step (s : cstate) (e : Z * co_op) : cstate :=
   match co_apply (fst e) (snd e) s with Ok s' => s' | _ => s end.
